@@ -393,7 +393,7 @@ func genMatchBytes(r *rand.Rand, n int, out *bufio.Writer) {
 }
 
 // ---- C20: random keys / values (arbitrary bytes, numeric edge cases), longer op sequences
-var numEdge = []string{"", "0", "-0", "+5", "9223372036854775807", "9223372036854775808", "-9223372036854775808", "-9223372036854775809", "18446744073709551615",
+var numEdge = []string{"", "-", "+", "+-1", "0", "-0", "+5", "9223372036854775807", "9223372036854775808", "-9223372036854775808", "-9223372036854775809", "18446744073709551615",
 	"18446744073709551616", "1e309", "-1e309", "1e-400", "NaN", "nan", "Inf", "-inf", "true", "T", "f", "FALSE", "0x1f", "0b1", "1_000", " 1", "1 ", "1.5", "٣", "1e5", ".5", "5."}
 
 func genParams(r *rand.Rand, n int, out *bufio.Writer) {
@@ -531,6 +531,8 @@ func genCors(r *rand.Rand, n int, out *bufio.Writer) {
 						h = "X-Evil"
 					case 1:
 						h = h[:1+r.IntN(len(h))]
+					case 2: // names a browser may send unasked (CORS-safelisted): still granted only when configured
+						h = []string{"Accept", "Accept-Language", "Content-Language", "Range"}[r.IntN(4)]
 					}
 					parts = append(parts, sp()+randCase(r, h)+sp())
 				}
